@@ -1,7 +1,7 @@
 \* liveness under fairness: with a termination grace period every pod Karpenter drains is terminating or gone in the end
 CONSTANTS Pods = {"p1", "p2"}  Archetypes <- ArchDl  TGPs <- BoolT  TGP = 3
   MaxNow = 4  MaxFaults = 1  MaxRestarts = 1  MaxDlChanges = 0  MaxLen = 1000  MaxSpont = 99
-  EarlierMode = "earlier"  GateTiers = TRUE  MinGrace = 1  DndMode = "honour"  ThresholdSlack = 0  DropMode = "keep"
+  EarlierMode = "earlier"  GateTiers = TRUE  MinGrace = 1  DndMode = "honour"  ThresholdSlack = 0  DropMode = "keep"  SplitMode = "waiting"
 SPECIFICATION FairSpec
 VIEW view
 PROPERTIES Live_C10_DrainedByDeadline
